@@ -18,7 +18,7 @@ Definition run_case2 (c : case2) : list (list Z) :=
   | Raises => [[-5]]
   | Returns e =>
       let e' := match p with Krebs => normalize_tf e | _ => e end in
-      [ [ if in_subset gen_tables O e' then 1 else 0 ];
+      [ [ if in_subset gen_tables e' then 1 else 0 ];
         if negb flag || negb (match p with Glycolysis | Krebs => true | _ => false end) then [] else
         match py_eval O e' with
         | Ok v => [1; match p with Krebs => if o_truthy O v then o_true O else o_false O | _ => v end]
